@@ -217,10 +217,25 @@ func (x *Exec) nilCheck(st *State, v *Val, what string, pos token.Pos) {
 	if st.FreshRefs[v.Term.Op] {
 		return
 	}
+	if x.mayPanic() {
+		if Neq(v.Term, IntLit(0)).IsTrue() {
+			return
+		}
+		ps := x.fork(st)
+		ps.Assume(Eq(v.Term, IntLit(0)))
+		pv := &Val{T: types.NewInterfaceType(nil, nil), Term: Fresh("panicval$nilderef", SInt)}
+		x.startPanic(ps, pv, "nil dereference ("+what+") at "+x.V.P.Pos(pos))
+		st.Assume(Neq(v.Term, IntLit(0)))
+		return
+	}
 	k := x.site(st, "nil:"+what)
 	x.oblige(st, "nopanic", fmt.Sprintf("nopanic:nil-deref@%s#%d", what, k), Neq(v.Term, IntLit(0)), pos, "")
 	st.Assume(Neq(v.Term, IntLit(0)))
 }
+
+// mayPanic: the contract under verification declares that runtime panics (nil dereference) are
+// behaviour to be modelled (forked into a panicking path), not obligations.
+func (x *Exec) mayPanic() bool { return x.FC != nil && x.FC.Has("maypanic") }
 
 func namedStruct(t types.Type) *types.Named {
 	t = types.Unalias(t)
